@@ -460,9 +460,48 @@ def r12_linear_traversal(run, F):
     run.ob("R12-LINEAR-TRAVERSAL", "scan", nfun >= 40 and nsites >= 150, "src/alpha", "%d functions on recursion cycles in the stage files, %d recursive call sites" % (nfun, nsites))
 
 
+def r13_poison_dropped(run, F):
+    """An ill-typed program is rejected *with a diagnostic* only if the error a typing helper returns stays in the tree.  In the
+    typer, a match arm for `Err(..)` of an owned Poisonable (the scrutinee is a local or a call result, not a place inside
+    the node, where the poison would stay) that ignores the payload and builds an unpoisoned AST node (Expression / Statement
+    / Reference) loses the error: later stages see a well-formed looking node (`|x[0]|` with `x: i32` reached the generator
+    and crashed it)."""
+    AST = ("Expression::", "Statement::", "common::Reference", "Declaration::")
+    arms = 0
+    for p, b in sorted(F.lib.bodies.items()):
+        if "hir" not in b or not F.rel(b["file"]).endswith("alpha/typer.rs"):
+            continue
+        for m in hirq.matches(b["hir"]):
+            sc = hirq.unwrap_trivial(m["scrut"])
+            while sc.get("k") == "AddrOf":
+                sc = hirq.unwrap_trivial(sc["e"])
+            in_place = sc.get("k") == "Field"
+            for a in m["arms"]:
+                errs = [x for alt in hirq.pat_alts(a["pat"]) for x in walk(alt) if x.get("k") == "TupleStruct" and str(x.get("res", "")).endswith("::Err")]
+                if not errs:
+                    continue
+                binds = [(nm, lid) for e in errs for nm, lid, _ in hirq.pat_bindings(e)]
+                ignored = all(not hirq.uses_local(a["body"], lid) for nm, lid in binds)
+                if not ignored:
+                    continue
+                arms += 1
+                cons = [hirq.short(pp) for pp, _ in hirq.constructs(a["body"])]
+                builds = [c for c in cons if c.startswith(AST) or any(t in c for t in AST)]
+                poisoned = any("Poison" in c or c.endswith("::Err") or c == "Err" for c in cons)
+                if builds and not poisoned and not in_place:
+                    run.ob("R13-POISON-DROPPED", "%s|%s" % (p.split(" as ")[0].strip("<"), builds[0]), False, F.where(b, a),
+                           "the Err(..) of `%s` is ignored and an unpoisoned %s is built: the diagnostic is lost and the node goes on to the resolver and generator" % (
+                               hirq.local_name_of(sc) or sc.get("name") or sc.get("k"), builds[0]))
+    run.ob("R13-POISON-DROPPED", "scan", arms >= 25, "src/alpha/typer.rs", "%d arms of the typer ignore the payload of an Err(..) (31 counted); none may drop an owned error and build a clean node" % arms)
+
+
 def check(run):
     F = run.facts("B")
     r12_linear_traversal(run, F)
+    r13_poison_dropped(run, F)
+    # builtins are expanded after typing and never re-checked: a literal whose type differs from the announced one aborts
+    # the in-process verifier (shared with C03.R9)
+    c03.r9_builtin_types(run, F)
     r1_inventory(run, F)
     r1b_phase(run, F)
     r2_unfinished(run, F)
